@@ -295,6 +295,17 @@ func (uconn *UConn) SetClientRandom(r []byte) error {
 func (uconn *UConn) SetSNI(sni string) {
 	hname := hostnameInSNI(sni)
 	uconn.config.ServerName = hname
+	if uconn.echCtx != nil && uconn.echCtx.innerHello != nil {
+		// ECH is being offered and the hello has been built: the name belongs in
+		// the encrypted inner hello, the outer server_name keeps the public name
+		uconn.echCtx.innerHello.serverName = hname
+		return
+	}
+	if uconn.echCtx != nil && uconn.clientHelloBuildStatus == BuildByGoTLS && uconn.HandshakeState.Hello != nil {
+		// the hello built by crypto/tls code is split into inner and outer when the
+		// handshake starts: the inner hello is cloned from this one
+		uconn.HandshakeState.Hello.ServerName = hname
+	}
 	for _, ext := range uconn.Extensions {
 		sniExt, ok := ext.(*SNIExtension)
 		if ok {
